@@ -235,6 +235,9 @@ func rulePVGo(r *Run) {
 // ---------------------------------------------------------------------------
 // merge iterator (heap protocol)
 
+// mergeIdxField: the name of the heap element's source-index field, set by the Next rule for the init rule.
+var mergeIdxField = "iterIdx"
+
 func ruleMergeIter(r *Run) {
 	p := r.P
 	dl := modPath + "/" + dockerlogPkg
@@ -340,6 +343,40 @@ func ruleMergeIter(r *Run) {
 			srcErr = call
 		}
 	}
+	// the refill may live in a helper that Next hands the popped element to (by value): the helper's
+	// copy of the element then plays the part of the popped element
+	body := next
+	var contCall *ssa.Call
+	if pop != nil && initCall != nil && (push == nil || srcNext == nil) {
+		for _, c := range callsIn(next) {
+			call, ok := c.(*ssa.Call)
+			if !ok {
+				continue
+			}
+			h := staticCallee(call)
+			if h == nil || h.Blocks == nil || pkgOfFunc(h) != pkgOfFunc(next) || c == initCall {
+				continue
+			}
+			var hPush, hNext, hErr *ssa.Call
+			for _, c2 := range callsIn(h) {
+				c2c, ok := c2.(*ssa.Call)
+				if !ok {
+					continue
+				}
+				switch {
+				case callIs(c2, "container/heap", "Push"):
+					hPush = c2c
+				case invokeIs(c2c, "Next"):
+					hNext = c2c
+				case invokeIs(c2c, "Err"):
+					hErr = c2c
+				}
+			}
+			if hPush != nil && hNext != nil {
+				body, contCall, push, srcNext, srcErr = h, call, hPush, hNext, hErr
+			}
+		}
+	}
 	if pop == nil || push == nil || initCall == nil || srcNext == nil {
 		on.Fail(r.pos(next.Pos()), "heap.Pop=%v heap.Push=%v init=%v source.Next=%v", pop != nil, push != nil, initCall != nil, srcNext != nil)
 		return
@@ -389,15 +426,72 @@ func ruleMergeIter(r *Run) {
 		on.Undecide(r.pos(pop.Pos()), "popped element is not kept in a local")
 		return
 	}
+	popCell := elemCell // the popped element in Next (the record the caller receives is copied from it)
+	if contCall != nil {
+		// the helper's parameter that receives the popped element, spilled into a local of the helper
+		pi := -1
+		for i, a := range contCall.Call.Args {
+			if lu, ok := a.(*ssa.UnOp); ok && lu.X == ssa.Value(popCell) {
+				pi = i
+			}
+		}
+		var hc *ssa.Alloc
+		if pi >= 0 && pi < len(body.Params) && body.Params[pi].Referrers() != nil {
+			for _, ref := range *body.Params[pi].Referrers() {
+				if st, ok := ref.(*ssa.Store); ok {
+					if al, ok := st.Addr.(*ssa.Alloc); ok {
+						hc = al
+					}
+				}
+			}
+		}
+		if hc == nil {
+			on.Undecide(r.pos(contCall.Pos()), "the popped element is not handed whole to the refill helper")
+			return
+		}
+		elemCell = hc
+		recv = body.Params[0]
+		// the helper is called on the same iterator
+		if contCall.Call.Args[0] != ssa.Value(next.Params[0]) {
+			good = false
+			on.Fail(r.pos(contCall.Pos()), "the refill helper is called on %s, not on this iterator", describe(contCall.Call.Args[0], 0))
+		}
+	}
+	// the source index of a heap element: the integer field of the element struct (whatever it is called)
+	idxField := "iterIdx"
+	if st, ok := derefType(elemCell.Type()).Underlying().(*types.Struct); ok {
+		hasBaseline := false
+		for i := 0; i < st.NumFields(); i++ {
+			if canonName(st.Field(i)) == "iterIdx" {
+				hasBaseline = true
+			}
+		}
+		if !hasBaseline {
+			for i := 0; i < st.NumFields(); i++ {
+				if bt, ok := st.Field(i).Type().Underlying().(*types.Basic); ok && bt.Info()&types.IsInteger != 0 {
+					idxField = canonName(st.Field(i))
+				}
+			}
+		}
+	}
+	mergeIdxField = idxField
 	isElemF := func(v ssa.Value, name string) bool {
 		f, base, ok := fieldNameOf(v)
 		return ok && f == name && base == ssa.Value(elemCell)
+	}
+	isPopF := func(v ssa.Value, name string) bool {
+		f, base, ok := fieldNameOf(v)
+		return ok && f == name && base == ssa.Value(popCell)
 	}
 	// *r = e.record before refill
 	emitted := false
 	allInstrs(next, func(in ssa.Instruction) {
 		if st, ok := in.(*ssa.Store); ok && st.Addr == ssa.Value(next.Params[1]) {
-			if lu, ok := st.Val.(*ssa.UnOp); ok && isElemF(lu.X, "record") && instrDominates(pop, st) && instrDominates(st, srcNext) {
+			before := ssa.Instruction(srcNext)
+			if contCall != nil {
+				before = contCall
+			}
+			if lu, ok := st.Val.(*ssa.UnOp); ok && isPopF(lu.X, "record") && instrDominates(pop, st) && instrDominates(st, before) {
 				emitted = true
 			}
 		}
@@ -411,7 +505,7 @@ func ruleMergeIter(r *Run) {
 	if lu, ok := srcNext.Call.Value.(*ssa.UnOp); ok {
 		if ia, ok := lu.X.(*ssa.IndexAddr); ok {
 			if il, ok := ia.X.(*ssa.UnOp); ok && isRecvF(il.X, "iters") {
-				if xl, ok := ia.Index.(*ssa.UnOp); ok && isElemF(xl.X, "iterIdx") {
+				if xl, ok := ia.Index.(*ssa.UnOp); ok && isElemF(xl.X, idxField) {
 					srcOK = true
 				}
 			}
@@ -437,7 +531,7 @@ func ruleMergeIter(r *Run) {
 	}
 	for _, ref := range *elemCell.Referrers() {
 		if fa, ok := ref.(*ssa.FieldAddr); ok {
-			if n, _, _ := fieldNameOf(fa); n == "iterIdx" && len(storesTo(fa)) > 0 {
+			if n, _, _ := fieldNameOf(fa); n == idxField && len(storesTo(fa)) > 0 {
 				good = false
 				on.Fail(r.pos(fa.Pos()), "the popped element's source index is modified")
 			}
@@ -455,6 +549,9 @@ func ruleMergeIter(r *Run) {
 				return nil, false
 			}
 			w := &feWalker{Fn: next, Assume: map[ssa.Value]constant.Value{srcNext: constant.MakeBool(refill)}, Hook: hook}
+			if contCall != nil {
+				w.Inline = func(c *ssa.Function, d int) bool { return c == body && d <= 1 }
+			}
 			for _, e := range w.Run() {
 				if e.Cut || len(e.Results) != 1 {
 					continue
@@ -535,9 +632,9 @@ func ruleMergeIter(r *Run) {
 				if lu, ok := mi.X.(*ssa.UnOp); ok {
 					if lit, ok := lu.X.(*ssa.Alloc); ok {
 						fs := allocFieldStores(lit)
-						if fs["iterIdx"] != loop.Index {
+						if fs[mergeIdxField] != loop.Index {
 							igood = false
-							oi.Fail(r.pos(ipush.Pos()), "pushed element's iterIdx is %s, not the range index of its source", describe(fs["iterIdx"], 0))
+							oi.Fail(r.pos(ipush.Pos()), "pushed element's iterIdx is %s, not the range index of its source", describe(fs[mergeIdxField], 0))
 						}
 						recOK := false
 						if rl, ok := fs["record"].(*ssa.UnOp); ok && rl.X == inext.Call.Args[0] {
@@ -656,11 +753,19 @@ func ruleMergeIter(r *Run) {
 	}
 	// source.Next call sites inside mergeIter: only init's loop and Next's refill
 	nNext := 0
+	seenM := map[*ssa.Function]bool{}
 	for _, m := range []string{"Next", "init", "Err", "Close"} {
 		if fn := p.Method(dockerlogPkg, "mergeIter", m); fn != nil {
-			for _, c := range callsIn(fn) {
-				if call, ok := c.(*ssa.Call); ok && invokeIs(call, "Next") {
-					nNext++
+			// the method and the helpers of the iterator it calls
+			for _, g := range funcGroup(fn) {
+				if seenM[g] {
+					continue
+				}
+				seenM[g] = true
+				for _, c := range callsIn(g) {
+					if call, ok := c.(*ssa.Call); ok && invokeIs(call, "Next") {
+						nNext++
+					}
 				}
 			}
 		}
